@@ -66,13 +66,9 @@ func (fc *FuncCtx) parseModifies1(env *Env, ent0 string) []modLoc {
 			ent = strings.TrimSuffix(ent, "[*]")
 		}
 		if strings.HasPrefix(ent, "elems(") && strings.HasSuffix(ent, ")") {
-			te, err := ParseExpr(ent[6 : len(ent)-1])
+			tx, err := parseTypeText(ent[6 : len(ent)-1])
 			if err != nil {
 				specFail("modifies %s: %v", ent, err)
-			}
-			tx, ok := exprToType(te)
-			if !ok {
-				specFail("modifies %s: not a type", ent)
 			}
 			t := fc.resolveType(tx, env.pkg)
 			out = append(out, modLoc{comp: fc.elemComp(t), kind: "all"})
@@ -133,7 +129,11 @@ func (fc *FuncCtx) parseModifies1(env *Env, ent0 string) []modLoc {
 			}
 			stt, ok := derefStruct(v.Ty)
 			if !ok {
-				specFail("modifies %s: not a pointer to struct", ent)
+				if pt, isPtr := v.Ty.Underlying().(*types.Pointer); isPtr {
+					out = append(out, modLoc{comp: fc.ptrComp(pt.Elem()), kind: "field", ref: v.T})
+					continue
+				}
+				specFail("modifies %s: not a pointer", ent)
 			}
 			for i := 0; i < stt.Underlying().(*types.Struct).NumFields(); i++ {
 				out = append(out, modLoc{comp: fc.heapComp(stt, i), kind: "field", ref: v.T})
@@ -472,6 +472,9 @@ func (fc *FuncCtx) callFunction(x *ssa.Call, fn *ssa.Function, args []Val, bindi
 		panic(unsupported(fmt.Sprintf("call to %s (%s) which has no contract", fn.String(), site)))
 	}
 
+	if ss != nil && len(ss.Hints) > 0 && x != nil {
+		fc.applyHints(fc.bodyEnv(st, x.Block()), ss.Hints, name+"/hint%d", reach)
+	}
 	pre := st.clone()
 	var env *Env
 	if ct != nil {
@@ -1024,4 +1027,19 @@ func (fc *FuncCtx) execCopy(x *ssa.Call, args []Val, st *State, reach string) {
 		return "(and (= " + b + " " + dbase + ") (<= " + doff + " " + ix + ") (< " + ix + " (+ " + doff + " " + n + ")))"
 	})
 	fc.vals[x] = Val{T: n, Ty: x.Type()}
+}
+
+func parseTypeText(src string) (te TypeExpr, err error) {
+	toks, err := lex(src)
+	if err != nil {
+		return te, err
+	}
+	p := &parser{toks: toks, src: src}
+	defer func() {
+		if r := recover(); r != nil {
+			err = fmt.Errorf("bad type %q: %v", src, r)
+		}
+	}()
+	te = p.typeExpr()
+	return te, nil
 }
